@@ -129,10 +129,10 @@ ALLMON = ["C01", "C02", "C04", "C06", "C07", "C08", "C10", "C12", "C13", "C14", 
 PROPS = {
     "C01": {"streams": s_C01, "monitors": ["C01"], "conc_monitors": ["C03", "C05", "C16"]},
     "C02": {"streams": s_C02, "monitors": ["C02"], "props_extra": ["C02H"], "conc_monitors": ["C03"]},
-    "C04": {"streams": s_C04, "monitors": ["C04"], "conc_monitors": ["C05", "C04", "PANIC"], "props_extra": ["C04D"]},
+    "C04": {"streams": s_C04, "monitors": ["C04"], "conc_monitors": ["C05", "C04", "PANIC"], "props_extra": ["C04D"], "translate": ["arena", "lockfree"]},
     "C06": {"streams": s_C06, "monitors": ["C06", "C01", "C02"], "props_extra": ["C06B"]},
     "C07": {"streams": s_C07, "monitors": ["C07"], "conc_monitors": ["C07"]},
-    "C08": {"streams": s_C08, "monitors": ["C08"]},
+    "C08": {"streams": s_C08, "monitors": ["C08"], "translate": ["arena", "lockfree"]},
     "C10": {"streams": s_C10, "monitors": ["C10"]},
     "C12": {"streams": s_C12, "monitors": ["C12", "C01", "C02"]},
     "C13": {"streams": s_C13, "monitors": ["C13", "C01", "C02", "C07", "C08", "C10"]},
